@@ -307,8 +307,33 @@ function revive(v) {
     return v;
 }
 
+function own_extras(arr) {
+    // own properties of an array beyond its elements and length (names and symbols, enumerable or not), and a foreign prototype:
+    // a source table / record that was tagged, frozen into another class or given a property is not "unchanged"
+    let extras = [];
+    for (let k of Reflect.ownKeys(arr)) {
+        if (k === 'length') continue;
+        if (typeof k === 'string' && /^(0|[1-9][0-9]*)$/.test(k) && Number(k) < arr.length) continue;
+        let v;
+        try { v = jsonable(arr[k]); } catch (e) { v = '?'; }
+        extras.push([String(k), v]);
+    }
+    if (Object.getPrototypeOf(arr) !== Array.prototype) extras.push(['__proto__', 'foreign']);
+    if (Object.isFrozen(arr) || Object.isSealed(arr) || !Object.isExtensible(arr)) extras.push(['__extensible__', false]);
+    return extras;
+}
+
+function snap_row(r) {
+    let cells = r.map(jsonable);
+    let extras = own_extras(r);
+    return extras.length ? {cells: cells, own_properties: extras} : cells;
+}
+
 function snap(t) {
-    return JSON.stringify(t === null || t === undefined ? null : t.map((r) => Array.isArray(r) ? r.map(jsonable) : jsonable(r)));
+    if (t === null || t === undefined) return JSON.stringify(null);
+    let rows = t.map((r) => Array.isArray(r) ? snap_row(r) : jsonable(r));
+    let extras = Array.isArray(t) ? own_extras(t) : [];
+    return JSON.stringify(extras.length ? {rows: rows, own_properties: extras} : rows);
 }
 
 function jsonable(v) {
@@ -389,6 +414,7 @@ async function op_query_csv_sink(req) {
     let input = req.input;
     let join = req.join === undefined ? null : req.join;
     let before_in = JSON.stringify(input), before_join = JSON.stringify(join);
+    let before_in_props = snap(input), before_join_props = snap(join);
     let before_cols = JSON.stringify([req.input_cols || null, req.join_cols || null]);
     let sink = new CollectWritable();
     let warnings = [];
@@ -403,7 +429,7 @@ async function op_query_csv_sink(req) {
         error = err_info(e);
     }
     return {error: error, warnings: warnings, bytes_hex: Buffer.concat(sink.parts).toString('hex'),
-            input_unchanged: JSON.stringify(input) === before_in, join_unchanged: JSON.stringify(join) === before_join,
+            input_unchanged: JSON.stringify(input) === before_in && snap(input) === before_in_props, join_unchanged: JSON.stringify(join) === before_join && snap(join) === before_join_props,
             input_after: JSON.stringify(input), join_after: JSON.stringify(join),
             cols_unchanged: JSON.stringify([req.input_cols || null, req.join_cols || null]) === before_cols, cols_after: JSON.stringify([req.input_cols || null, req.join_cols || null])};
 }
